@@ -396,7 +396,10 @@ func (s *UtxoStore) removeRelevantCredit(tx mwdb.DBTransaction,
 					"index": cred.outPoint.Index,
 				})
 			k := canonicalOutPoint(&cred.outPoint.Hash, cred.outPoint.Index)
-			_ = deleteRawUnminedInput(nsUnminedInputs, k)
+			err = deleteRawUnminedInput(nsUnminedInputs, k)
+			if err != nil {
+				return nil, false, err
+			}
 
 			if cred.flags.Spent {
 
@@ -461,7 +464,10 @@ func (s *UtxoStore) removeRelevantUnminedCredit(tx mwdb.DBTransaction,
 					"index": cred.outPoint.Index,
 				})
 			k := canonicalOutPoint(&cred.outPoint.Hash, cred.outPoint.Index)
-			_ = deleteRawUnminedInput(nsUnminedInputs, k)
+			err = deleteRawUnminedInput(nsUnminedInputs, k)
+			if err != nil {
+				return nil, err
+			}
 			txs[cred.outPoint.Hash] = struct{}{}
 		}
 	}
